@@ -294,10 +294,6 @@ func (fs *memFS) OpenFile(ctx context.Context, name string, flag int, perm os.Fi
 
 	} else {
 		n = dir.children[frag]
-		if flag&(os.O_SYNC|os.O_APPEND) != 0 {
-			// memFile doesn't support these flags yet.
-			return nil, os.ErrInvalid
-		}
 		if flag&os.O_CREATE != 0 {
 			if flag&os.O_EXCL != 0 && n != nil {
 				return nil, os.ErrExist
@@ -324,6 +320,7 @@ func (fs *memFS) OpenFile(ctx context.Context, name string, flag int, perm os.Fi
 		children = append(children, c.stat(cName))
 	}
 	return &memFile{
+		appendMode:       flag&os.O_APPEND != 0,
 		n:                n,
 		nameSnapshot:     frag,
 		childrenSnapshot: children,
@@ -505,6 +502,9 @@ type memFile struct {
 	accessMode int
 	// pos is protected by n.mu.
 	pos int
+	// appendMode is whether the file was opened with os.O_APPEND: every
+	// Write then goes to the end of the file.
+	appendMode bool
 }
 
 // A *memFile implements the optional DeadPropsHolder interface.
@@ -597,6 +597,9 @@ func (f *memFile) Write(p []byte) (int, error) {
 
 	if f.n.mode.IsDir() {
 		return 0, os.ErrInvalid
+	}
+	if f.appendMode && len(p) > 0 {
+		f.pos = len(f.n.data)
 	}
 	if f.pos < len(f.n.data) {
 		n := copy(f.n.data[f.pos:], p)
